@@ -869,9 +869,11 @@ func c09Topo(c *Ctx) {
 		order []int
 		err   bool
 		src   string
+		closed    string
+		closedErr bool
 	}
 	var cases []tcase
-	var reqs [][]string
+	var reqs, creqs [][]string
 	for i := 0; i < n; i++ {
 		k := 1 + c.Rng.Intn(9)
 		var edges [][2]int
@@ -918,6 +920,43 @@ func c09Topo(c *Ctx) {
 		}
 		p := ast.Pipelines[0]
 		tc := tcase{n: k, edges: edges, src: src}
+		// the dependency map the loop is run on: must be transitively closed (hypothesis of
+		// Props.C09.topoSort_respects_deps), and equal to the model's closure
+		closed, cerr := syntax.VerifClosedDeps(p)
+		tc.closedErr = cerr != nil
+		if cerr == nil {
+			has := func(a, b string) bool {
+				for _, x := range closed[a] {
+					if x == b {
+						return true
+					}
+				}
+				return false
+			}
+			var pairs []string
+			for a, ds := range closed {
+				for _, b := range ds {
+					pairs = append(pairs, strings.TrimPrefix(a, "C")+"-"+strings.TrimPrefix(b, "C"))
+					for _, e := range closed[b] {
+						if !has(a, e) {
+							r.violate(Violation{Kind: "property", Key: "C09:deps-not-transitive",
+								What:  fmt.Sprintf("the dependency map handed to the reordering loop is not transitively closed: %s -> %s -> %s but not %s -> %s", a, b, e, a, e),
+								Input: src, Broken: "hypothesis transOn of Props.C09.topoSort_respects_deps"})
+						}
+					}
+				}
+			}
+			sort.Slice(pairs, func(i, j int) bool {
+				var a1, b1, a2, b2 int
+				fmt.Sscanf(pairs[i], "%d-%d", &a1, &b1)
+				fmt.Sscanf(pairs[j], "%d-%d", &a2, &b2)
+				return a1 < a2 || (a1 == a2 && b1 < b2)
+			})
+			tc.closed = "."
+			if len(pairs) > 0 {
+				tc.closed = strings.Join(pairs, ",")
+			}
+		}
 		func() {
 			defer func() {
 				if x := recover(); x != nil {
@@ -977,9 +1016,30 @@ func c09Topo(c *Ctx) {
 			es = strings.Join(parts, ",")
 		}
 		reqs = append(reqs, []string{"C09.toposort", strconv.Itoa(k), es})
+		creqs = append(creqs, []string{"C09.closure", strconv.Itoa(k), es})
 	}
 	reps := c.Drv.AskBatch(reqs)
+	creps := c.Drv.AskBatch(creqs)
 	for i, tc := range cases {
+		cf := strings.Fields(creps[i])
+		if len(cf) == 3 {
+			mcyc := cf[0] == "cycle=true"
+			if mcyc != tc.closedErr {
+				r.violate(Violation{Kind: "correspondence", Key: "C09:closure-cycle-mismatch", What: "cycle detection of addNextDeps differs from the Lean closure",
+					Input: tc.src, Impl: fmt.Sprint(tc.closedErr), Model: creps[i], Broken: "correspondence C09.closure (Martian.Format.closedDeps / hasCycle)"})
+			} else if !mcyc {
+				r.hist("closure:compared")
+				if cf[2] != tc.closed {
+					r.violate(Violation{Kind: "correspondence", Key: "C09:closure-model-mismatch", What: "the closed dependency map differs from the Lean closedDeps",
+						Input: tc.src, Impl: tc.closed, Model: cf[2], Broken: "correspondence C09.closure (Martian.Format.closedDeps)"})
+				}
+				if cf[1] != "trans=true" {
+					r.violate(Violation{Kind: "correspondence", Key: "C09:model-closure-not-transitive",
+						What:  "the Lean closedDeps is not transitive on this graph: the hypothesis of topoSort_respects_deps / topoSort_idem fails",
+						Input: tc.src, Model: creps[i], Broken: "hypothesis transOn of Props.C09.topoSort_respects_deps"})
+				}
+			}
+		}
 		parts := make([]string, len(tc.order))
 		for j, id := range tc.order {
 			parts[j] = strconv.Itoa(id)
